@@ -188,11 +188,26 @@ static void ctx_nothing(void) {}
 /* wrap finish_test / finish_suite of whatever reporter is used: log what was credited */
 static void (*orig_finish_test)(TestReporter *, const char *, int, const char *);
 static void (*orig_finish_suite)(TestReporter *, const char *, int);
+/* what a test is credited = the change of the reporter's counters from the moment the test is started to the end
+   of finish_test (however and whenever the results are added in between) */
+static void (*orig_start_test)(TestReporter *, const char *);
+static int snap_valid, snap_p, snap_f, snap_s, snap_e;
+static void probe_start_test(TestReporter *r, const char *name) {
+    (*orig_start_test)(r, name);
+    snap_p = r->passes; snap_f = r->failures; snap_s = r->skips; snap_e = r->exceptions; snap_valid = 1;
+}
 static void probe_finish_test(TestReporter *r, const char *file, int line, const char *message) {
     static char b[12000]; static char name[8192];
     int p = r->passes, f = r->failures, s = r->skips, e = r->exceptions;
+    if (snap_valid) { p = snap_p; f = snap_f; s = snap_s; e = snap_e; snap_valid = 0; }
     snprintf(name, sizeof name, "%s", crumb());
     (*orig_finish_test)(r, file, line, message);
+    {   /* what the runner told the reporter about how the test ended (NULL: nothing) */
+        static char mb[12000]; int n = snprintf(mb, sizeof mb, "%s ", name);
+        if (!message) snprintf(mb + n, sizeof mb - n, "-");
+        else for (const unsigned char *q = (const unsigned char *)message; *q && n < (int)sizeof mb - 4; q++) n += snprintf(mb + n, sizeof mb - n, "%02x", *q);
+        logev("tmsg", mb);
+    }
     snprintf(b, sizeof b, "%s %d %d %d %d", name, r->passes - p, r->failures - f, r->skips - s, r->exceptions - e);
     logev("tdone", b);
 }
@@ -273,6 +288,7 @@ int main(int argc, char **argv) {
     else return 98;
     if (!rep) { fprintf(stderr, "scn_driver: no reporter\n"); return 98; }
     orig_finish_test = rep->finish_test; rep->finish_test = probe_finish_test;
+    orig_start_test = rep->start_test; rep->start_test = probe_start_test;
     orig_finish_suite = rep->finish_suite; rep->finish_suite = probe_finish_suite;
     if (run_twice == 2) setenv("CGREEN_NO_FORK", "1", 1);     /* first run in the runner's own process */
     int status = run_single ? run_single_test(suites[0].suite, single, rep) : run_test_suite(suites[0].suite, rep);
